@@ -20,6 +20,10 @@ impl VotingBuilder {
     pub uninterp spec fn signers(&self) -> Seq<Rc<Ed25519KeyHash>>;
     #[verifier::external_body] pub fn get_required_signers(&self) -> (r: Ed25519KeyHashes) ensures r.wf(), r.keyhashes@ == self.signers() { unimplemented!() }
 }
+impl VotingProposalBuilder {
+    pub uninterp spec fn signers(&self) -> Seq<Rc<Ed25519KeyHash>>;
+    #[verifier::external_body] pub fn get_required_signers(&self) -> (r: Ed25519KeyHashes) ensures r.wf(), r.keyhashes@ == self.signers() { unimplemented!() }
+}
 impl<'a> From<&'a TxInputsBuilder> for Ed25519KeyHashes {
     #[verifier::external_body] fn from(b: &'a TxInputsBuilder) -> (r: Ed25519KeyHashes) ensures r.wf(), r.keyhashes@ == b.signers() { unimplemented!() }
 }
@@ -27,7 +31,7 @@ impl<'a> From<&'a NativeScripts> for Ed25519KeyHashes {
     #[verifier::external_body] fn from(s: &'a NativeScripts) -> (r: Ed25519KeyHashes) ensures r.wf(), r.keyhashes@ == scripts_signers(*s) { unimplemented!() }
 }
 pub open spec fn opt_seq(o: Option<Seq<Rc<Ed25519KeyHash>>>) -> Seq<Rc<Ed25519KeyHash>> { match o { Some(s) => s, None => Seq::empty() } }
-/// the set of distinct keys that must sign: union of the seven sources (C18)
+/// the set of distinct keys that must sign: union of the eight sources (inputs, collateral, explicit signers, mint, withdrawals, certificates, votes, proposals) (C18)
 pub open spec fn needed_keys(b: TransactionBuilder) -> Set<Rc<Ed25519KeyHash>> {
     b.inputs.signers().to_set()
       + b.collateral.signers().to_set()
@@ -36,6 +40,7 @@ pub open spec fn needed_keys(b: TransactionBuilder) -> Set<Rc<Ed25519KeyHash>> {
       + (match b.withdrawals { Some(w) => w.signers().to_set(), None => Set::empty() })
       + (match b.certs { Some(c) => c.signers().to_set(), None => Set::empty() })
       + (match b.voting_procedures { Some(v) => v.signers().to_set(), None => Set::empty() })
+      + (match b.voting_proposals { Some(v) => v.signers().to_set(), None => Set::empty() })
 }
 pub proof fn lemma_empty_append<T>(a: Seq<T>)
     ensures dedup_append(a, Seq::<T>::empty()) == a
